@@ -20,8 +20,9 @@ IsEv(e) == l < NLines /\ Ev.e = e
 \* authorisations the code grants besides ownership: governance may move positions (position.go)
 TrSpecial == {<<"cl.transfer", "gov">>}
 TrTransferKinds == {"cl.transfer", "tf.admin"}
-\* MsgForceUnlock additionally requires the owner to be on the force-unlock list (u5 in every history)
-TrListed(kind, sender) == kind = "lock.force" => sender = "u5"
+\* MsgForceUnlock additionally requires the owner to be on the force-unlock list (u4 and u5 in every history;
+\* two listed owners, so that "listed" cannot stand in for "owner")
+TrListed(kind, sender) == kind = "lock.force" => sender \in {"u4", "u5"}
 
 TraceInit ==
     /\ HWInit
